@@ -1,0 +1,66 @@
+// Copyright 2025 UnoDB contributors
+#ifndef UNODB_DETAIL_VERIF_HOOKS_HPP
+#define UNODB_DETAIL_VERIF_HOOKS_HPP
+
+/// \file
+/// Verification hooks: scheduling points before shared-memory accesses of the
+/// OLC protocol and QSBR, and heap allocate/free notifications. Everything in
+/// this file compiles to nothing unless UNODB_DETAIL_VERIF_HOOKS is defined.
+
+#ifdef UNODB_DETAIL_VERIF_HOOKS
+
+#include <atomic>
+#include <cstdint>
+#include <cstring>
+
+namespace unodb::verif {
+
+/// Kind of the access about to be made (hooks fire *before* the access).
+enum class ev : std::uint8_t {
+  L_LOAD,         // optimistic_lock::try_read_lock: lock word load
+  L_CHECK,        // optimistic_lock::check / try_read_unlock: lock word load
+  L_CAS,          // optimistic_lock::try_upgrade_to_write_lock: lock word CAS
+  L_UNLOCK,       // optimistic_lock::write_unlock: lock word store
+  L_OBSOLETE,     // optimistic_lock::write_unlock_and_obsolete: store
+  F_LOAD,         // in_critical_section<T>::load
+  F_STORE,        // in_critical_section<T>::store
+  SPIN,           // spin_wait_loop_body
+  Q_STATE_LOAD,   // qsbr::state load
+  Q_STATE_CAS,    // qsbr::state compare-exchange
+  Q_STATE_DEC,    // qsbr::state fetch_sub (threads in previous epoch)
+  Q_ORPHAN_LOAD,  // orphan list head load
+  Q_ORPHAN_CAS,   // orphan list head compare-exchange
+  Q_ORPHAN_XCHG,  // orphan list head exchange
+  Q_ORPHAN_TAIL,  // orphan list tail append (plain stores)
+  H_ALLOC,        // after allocate_aligned: addr = block, operand = size
+  H_FREE          // before free_aligned: addr = block
+};
+
+using hook_fn = void (*)(ev, const void*, std::uint64_t) noexcept;
+
+// NOLINTNEXTLINE(cppcoreguidelines-avoid-non-const-global-variables)
+inline std::atomic<hook_fn> g_hook{nullptr};
+
+inline void hook(ev e, const void* addr, std::uint64_t operand = 0) noexcept {
+  const auto f = g_hook.load(std::memory_order_relaxed);
+  if (f != nullptr) f(e, addr, operand);
+}
+
+template <typename T>
+[[nodiscard]] inline std::uint64_t as_u64(const T& t) noexcept {
+  std::uint64_t r = 0;
+  if constexpr (sizeof(T) <= sizeof(r)) std::memcpy(&r, &t, sizeof(T));
+  return r;
+}
+
+}  // namespace unodb::verif
+
+#define UNODB_DETAIL_VERIF_HOOK(...) ::unodb::verif::hook(__VA_ARGS__)
+
+#else  // UNODB_DETAIL_VERIF_HOOKS
+
+#define UNODB_DETAIL_VERIF_HOOK(...) ((void)0)
+
+#endif  // UNODB_DETAIL_VERIF_HOOKS
+
+#endif  // UNODB_DETAIL_VERIF_HOOKS_HPP
